@@ -80,6 +80,10 @@ Qed.
 Lemma filter_map_app {A B} (f : A -> option B) l1 l2 : filter_map f (l1 ++ l2) = filter_map f l1 ++ filter_map f l2.
 Proof. induction l1 as [|x t IH]; simpl; [reflexivity|]. destruct (f x); simpl; rewrite IH; reflexivity. Qed.
 
+(* in a buffer no command mentions a handle before the command that creates it *)
+Definition creates_first (b : list cmd) : Prop :=
+  forall b1 h key b2, b = b1 ++ CCreate h key :: b2 -> forall c, In c b1 -> cmd_handle c <> h.
+
 (* ---- the relation ---- *)
 Definition created (rem : list scmd) : list nat :=
   filter_map (fun c => match c with SCreate k _ => Some k | _ => None end) rem.
@@ -98,7 +102,8 @@ Record R (s : st) (hs : list handle) (sp : sst) : Prop := {
   r_marked : forall k, k < length hs -> (In (hnd hs k) (marked s) <-> In k (sp_marked sp));
   r_slots : length (slots s) <= length hs;
   r_eid : sp_lock sp <> 0 -> (N.of_nat (length (slots s)) <= next_eid s)%N /\ (next_eid s <= N.of_nat (length hs))%N /\
-                             forall h, In h hs -> (fst h < next_eid s)%N
+                             forall h, In h hs -> (fst h < next_eid s)%N;
+  r_cf : Forall creates_first (bufs s)
 }.
 
 Definition BOUND : N := 16777000%N.     (* below 2^24 - 2: the version field does not wrap within this many creations *)
@@ -145,7 +150,7 @@ Lemma R_create_unlocked s hs sp tid key s' h :
   step s (Create tid key) = Ok (s', Some h) -> R s' (hs ++ [h]) (spec_step sp (SoCreate tid key)).
 Proof.
   intros HR Hl0 Hb H. pose proof (R_rem_nil _ _ _ HR Hl0) as Hrem.
-  destruct HR as [HG Hc Hl Hn Hbf Hwf Hu Hcr Hmi Hml Hm Hs He]. rewrite Hrem in HG.
+  destruct HR as [HG Hc Hl Hn Hbf Hwf Hu Hcr Hmi Hml Hm Hs He Hcf]. rewrite Hrem in HG.
   unfold step in H. rewrite Hl, Hl0 in H. destruct (get_arch s key) as [s1 ai] eqn:Ega.
   destruct (get_arch_G s hs _ _ key s1 ai HG Ega) as (HG1 & (a & Ha & Hk) & Es & El & En & Ee & Hctl1).
   apply bind_ok in H. destruct H as ((s2, h2) & Hci & H). apply bind_ok in H. destruct H as (s3 & Hai & H). inversion H; subst s3 h2; clear H.
@@ -174,6 +179,7 @@ Proof.
     + rewrite hnd_app1 by lia. apply Hm. lia.
   - rewrite app_length. simpl. rewrite Es in Hs3. lia.
   - intros Hne. contradiction.
+  - rewrite C3. assumption.
 Qed.
 
 (* ---- Destroy, not locked: the request waits for update() ---- *)
@@ -181,7 +187,7 @@ Lemma R_destroy_unlocked s hs sp tid k s' :
   R s hs sp -> sp_lock sp = 0 ->
   step s (Destroy tid (resolve hs k)) = Ok (s', None) -> R s' hs (spec_step sp (SoDestroy tid k)).
 Proof.
-  intros HR Hl0 H. destruct HR as [HG Hc Hl Hn Hbf Hwf Hu Hcr Hmi Hml Hm Hs He].
+  intros HR Hl0 H. destruct HR as [HG Hc Hl Hn Hbf Hwf Hu Hcr Hmi Hml Hm Hs He Hcf].
   unfold step in H. rewrite Hl, Hl0 in H. inversion H; subst s'; clear H. rewrite resolve_hnd.
   unfold spec_step. rewrite <- Hc. destruct (Nat.ltb_spec k (length hs)) as [Hk|Hk]; simpl.
   - rewrite Hl0. constructor; simpl; try assumption.
@@ -204,7 +210,7 @@ Lemma R_destroy_now_unlocked s hs sp tid k s' :
   R s hs sp -> sp_lock sp = 0 -> within (length hs) ->
   step s (DestroyNow tid (resolve hs k)) = Ok (s', None) -> R s' hs (spec_step sp (SoDestroyNow tid k)).
 Proof.
-  intros HR Hl0 Hb H. destruct HR as [HG Hc Hl Hn Hbf Hwf Hu Hcr Hmi Hml Hm Hs He].
+  intros HR Hl0 Hb H. destruct HR as [HG Hc Hl Hn Hbf Hwf Hu Hcr Hmi Hml Hm Hs He Hcf].
   unfold step in H. rewrite Hl, Hl0 in H. apply bind_ok in H. destruct H as (s1 & H1 & H). inversion H; subst s1; clear H.
   rewrite resolve_hnd in H1.
   unfold spec_step. rewrite <- Hc. destruct (Nat.ltb_spec k (length hs)) as [Hk|Hk]; simpl.
@@ -222,7 +228,7 @@ Lemma R_clear_arch s hs sp key s' :
   R s hs sp -> within (length hs) ->
   step s (ClearArch key) = Ok (s', None) -> R s' hs (spec_step sp (SoClearArch key)).
 Proof.
-  intros HR Hb H. destruct HR as [HG Hc Hl Hn Hbf Hwf Hu Hcr Hmi Hml Hm Hs He].
+  intros HR Hb H. destruct HR as [HG Hc Hl Hn Hbf Hwf Hu Hcr Hmi Hml Hm Hs He Hcf].
   unfold step in H. destruct (get_arch s key) as [s1 ai] eqn:Ega.
   destruct (get_arch_G s hs _ _ key s1 ai HG Ega) as (HG1 & (a & Ha & Hk) & Es & El & En & Ee & Hctl1).
   apply bind_ok in H. destruct H as (s2 & Hca & H). inversion H; subst s2; clear H.
@@ -238,7 +244,7 @@ Lemma R_update s hs sp s' :
   R s hs sp -> sp_lock sp = 0 -> within (length hs) ->
   step s Update = Ok (s', None) -> R s' hs (spec_step sp SoUpdate).
 Proof.
-  intros HR Hl0 Hb H. destruct HR as [HG Hc Hl Hn Hbf Hwf Hu Hcr Hmi Hml Hm Hs He].
+  intros HR Hl0 Hb H. destruct HR as [HG Hc Hl Hn Hbf Hwf Hu Hcr Hmi Hml Hm Hs He Hcf].
   unfold step in H. rewrite Hl, Hl0 in H. apply bind_ok in H. destruct H as (s1 & H1 & H). inversion H; subst s'; clear H.
   assert (Hmi' : forall h, In h (marked s) -> h = null_handle \/ exists k, k < length hs /\ hnd hs k = h).
   { intros h Hin. destruct (Hmi h Hin) as [E|Hin']; [left; assumption|right; apply In_hnd; assumption]. }
